@@ -23,7 +23,7 @@ claim('C15', 'model_checking',
       'explicit-state BFS over fd-passing histories on the real bus with a descriptor-identity oracle and a process-wide descriptor-count invariant checked in every state',
       'Histories of method calls carrying descriptors (announced x attached in {0..3}^2, attached with the first or a later write) from a negotiated sender to a negotiated peer / non-negotiated peer / unowned name / policy-denied name / the driver, '
       'plus disconnects and pending_fd_timeout expiry, are explored breadth-first with max_message_unix_fds=2. Received descriptors must be the same open files (st_dev, st_ino, offset) in order and in the announced number, only on negotiated '
-      'connections; no over-limit or mismatched message may be delivered; the /proc/self/fd count of the bus process must return to baseline (+ sockets of live clients + surplus descriptors a live connection may still hold) in every quiescent state. A monitor and an eavesdropper that did not negotiate descriptor passing observe every history: nothing they receive may announce descriptors.',
+      'connections; no over-limit or mismatched message may be delivered; the /proc/self/fd count of the bus process must return to baseline (+ sockets of live clients + surplus descriptors a live connection may still hold) in every quiescent state. A monitor and an eavesdropper that did not negotiate descriptor passing observe every history: nothing they receive may announce descriptors. A sender that never negotiated descriptor passing attaches descriptors anyway; a client attaches a surplus descriptor to its Hello (subject to the pending-descriptor timeout).',
       'Whether an over-limit sender is answered with an error or disconnected is observed, not judged. The kernel delivers SCM_RIGHTS as the sandbox kernel does. More than 3 descriptors per message and histories beyond the depth bound are not covered.',
       'DESIGN.md section 4 C15')
 
